@@ -6,6 +6,7 @@
     get_ancestors_of_counterfactual                                  (Def. 2.1 of Correa, Lee, Bareinboim 2022)
     _get_conditioned_variables_in_ancestral_set,
     _get_ancestral_set_after_intervening_on_conditioned_variables,
+    get_ancestral_set_root_variable,
     _merge_frozen_sets_with_common_vertices,
     _merge_frozen_sets_linked_by_bidirectional_edges,
     _compute_ancestral_components_from_ancestral_sets,
@@ -103,6 +104,13 @@ def condInAncestralSet (g : MG Name) (cond : List Var) (root : Var) : Except Err
 def ancestralSetAfter (g : MG Name) (cond : List Var) (root : Var) : Except Err (List Var) := do
   let c ← condInAncestralSet g cond root
   ctfAncestors (g.removeOutEdges c) root
+
+/-- `get_ancestral_set_root_variable` (after `fix:` f335599): the form in which the root `W_t` appears in its own
+ancestral set, `‖W_t‖` of the graph without the edges out of `X_*(W_t)`; Algorithm 3 looks its outcomes up in the
+ancestral components under this form -/
+def ancestralSetRoot (g : MG Name) (cond : List Var) (root : Var) : Except Err Var := do
+  let c ← condInAncestralSet g cond root
+  minimize (g.removeOutEdges c) root
 
 /-! ### merging ancestral sets into ancestral components (ancestor_utils.py:212-366, 404-599)
 
